@@ -22,6 +22,7 @@ REGISTRY = {
     "C12": ("bpmc.checks.c12", "C12"),
     "C13": ("bpmc.checks.c13", "C13"),
     "C14": ("bpmc.checks.c14", "C14"),
+    "C15": ("bpmc.checks.c15", "C15"),
     "C16": ("bpmc.checks.c16", "C16"),
     "C17": ("bpmc.checks.c17", "C17"),
     "C18": ("bpmc.checks.c18", "C18"),
